@@ -179,6 +179,9 @@ static Res case_rotate(Rng & r)
   Res res; double phi = r.uniform(-7, 7), th = r.uniform(-4, 4), psi = r.uniform(-7, 7);
   if (r.chance(0.2)) { phi = (M_PI / 2) * r.range(-4, 4); } if (r.chance(0.2)) th = (M_PI / 2) * r.range(-2, 2); if (r.chance(0.2)) psi = 0;
   bxdecay0::vector3 v = bxdecay0::make_vector3(r.uniform(-2, 2), r.uniform(-2, 2), r.uniform(-2, 2)), w = bxdecay0::make_vector3(r.uniform(-2, 2), r.uniform(-2, 2), r.uniform(-2, 2));
+  // decoy call: the same routine immediately before with two of the three angles bit-identical and the third different (or with the same angles and
+  // another vector): a rotation remembered between calls and keyed on part of its arguments leaks into the call under test
+  if (r.chance(0.4)) { int which = r.range(0, 3); double a1 = phi, a2 = th, a3 = psi, other = r.chance(0.5) ? 0.0 : r.uniform(-7, 7); if (which == 0) a1 = other; else if (which == 1) a2 = other; else if (which == 2) a3 = other; (void)bxdecay0::rotate_zyz(w, a1, a2, a3); res.decoy = true; }
   bxdecay0::vector3 rv = bxdecay0::rotate_zyz(v, phi, th, psi), rw = bxdecay0::rotate_zyz(w, phi, th, psi);
   // independent R = Rz(phi) Ry(theta) Rz(psi)
   auto Rz = [](double a, const double * p, double * q) { q[0] = std::cos(a) * p[0] - std::sin(a) * p[1]; q[1] = std::sin(a) * p[0] + std::cos(a) * p[1]; q[2] = p[2]; };
@@ -193,7 +196,7 @@ static Res case_rotate(Rng & r)
   bxdecay0::vector3 ex = bxdecay0::rotate_zyz(bxdecay0::make_vector3(1, 0, 0), phi, th, psi), ey = bxdecay0::rotate_zyz(bxdecay0::make_vector3(0, 1, 0), phi, th, psi), ez = bxdecay0::rotate_zyz(bxdecay0::make_vector3(0, 0, 1), phi, th, psi);
   double det = ex.x * (ey.y * ez.z - ey.z * ez.y) - ex.y * (ey.x * ez.z - ey.z * ez.x) + ex.z * (ey.x * ez.y - ey.y * ez.x);
   if (std::fabs(det - 1) > 1e-12) { res.ok = false; res.cls = "rotate-orthonormal"; res.msg = res.desc + ": determinant " + jnum(det); }
-  res.nt = std::string("rotate|") + (psi == 0 ? "psi0" : "psi") + "|" + std::to_string((int)std::floor(th)); return res;
+  res.nt = std::string("rotate|") + (psi == 0 ? "psi0" : "psi") + "|" + std::to_string((int)std::floor(th)) + (res.decoy ? "|after-decoy" : ""); return res;
 }
 
 // ---------------------------------------------------------------- Fermi function
